@@ -173,6 +173,11 @@ class Module:
         if _VOCAB is None:
             _VOCAB = load_vocab()
         canonicalise(self.tree, eq_none=not rel.startswith("BPTK_Py/sddsl/"))
+        if tree is not None and getattr(tree, "_changed", True):
+            from .inline import records_to_dicts
+            from .rename import baseline_class_names
+            if records_to_dicts(self.tree, baseline_class_names()):
+                canonicalise(self.tree, eq_none=not rel.startswith("BPTK_Py/sddsl/"))
         self.inlined_calls = 0
 
     def finish_view(self, global_classes, any_helpers: bool, global_funcs=None) -> None:
@@ -180,6 +185,9 @@ class Module:
         from .inline import canonicalise, inline_module
         self.inlined_calls = inline_module(self.tree, _VOCAB, global_classes, any_helpers, global_funcs) if _VOCAB else 0
         if self.inlined_calls:
+            from .inline import flatten_collaborators
+            from .rename import baseline_class_names
+            flatten_collaborators(self.tree, global_classes, baseline_class_names())
             canonicalise(self.tree, eq_none=not self.rel.startswith("BPTK_Py/sddsl/"))      # the inlined bodies once more (idempotent)
         # execution/source order of the *view* (inlined statements keep the line numbers of their helper, so lineno is for reporting only)
         k = 0
@@ -311,6 +319,17 @@ class Index:
                 self.class_by_name.setdefault(c.name, []).append(c)
         global_classes = {name: cs[0].node for name, cs in self.class_by_name.items()}
         any_helpers = _VOCAB is not None and any(f.node.name not in _VOCAB for m in self.modules.values() for f in m.functions.values())
+        # constants of a class used from another module (Scenario._RUNSPEC_NAMES in the manager): only on a tree that differs from the profile
+        if self.renames or any(getattr(m, "_differs", False) for m in self.modules.values()) or any_helpers:
+            from .inline import class_constants, propagate_foreign_class_constants
+            table: Dict[str, Dict[str, ast.AST]] = {}
+            for m in self.modules.values():
+                table.update(class_constants(m.tree))
+            if table:
+                stored = {n.attr for m in self.modules.values() for n in ast.walk(m.tree) if isinstance(n, ast.Attribute) and isinstance(n.ctx, (ast.Store, ast.Del))}
+                table = {c: {k: v for k, v in cc.items() if k not in stored} for c, cc in table.items()}
+                for m in self.modules.values():
+                    propagate_foreign_class_constants(m.tree, table)
         global_funcs: Dict[str, ast.FunctionDef] = {}
         if any_helpers:
             seen_twice = set()
@@ -324,6 +343,13 @@ class Index:
                 del global_funcs[nme]
         for m in self.modules.values():
             m.finish_view(global_classes, any_helpers, global_funcs)
+        # state that moved into a collaborator object shows up as a new attribute of the owner once the view is built: one more
+        # attribute round, on the view
+        if any(m.inlined_calls for m in self.modules.values()):
+            from .rename import attr_round, load_profile
+            prof = load_profile()
+            if prof:
+                self.renames += attr_round({rel: m.tree for rel, m in self.modules.items()}, prof)
 
     # -- lookups (fail closed) ---------------------------------------------
     def module(self, rel: str) -> Module:
